@@ -179,9 +179,9 @@ def tree_matches_spec(t, s):
 
 
 # ----------------------------------------------------------------------------- hashes (mirror of Run/C18.v)
-HMASK = (1 << 64) - 1
+HMASK = (1 << 63) - 1
 HPRIME = 1099511628211
-HINIT = 14695981039346656037
+HINIT = 14695981039346656037 & HMASK
 
 
 def mix(h, n):
@@ -271,18 +271,30 @@ def hash_doc(d):
 
 
 # ----------------------------------------------------------------------------- Gallina printing
+QNAMES = set("designspace axes axis map rules rule conditionset condition sub sources source location dimension instances instance lib dict key string integer real data date array true false name tag default hidden minimum maximum values input output processing with uservalue xvalue yvalue familyname stylename filename layer postscriptfontname stylemapfamilyname stylemapstylename format unknown copy zz first last".split())
+
+
+def gpacked(b):
+    ints = []
+    for i in range(0, len(b), 7):
+        ints.append(int.from_bytes(b[i:i + 7].ljust(7, b"\0"), "big"))
+    return "(u %d [%s]%%uint63)" % (len(b), ";".join(map(str, ints)))
+
+
 def gs(s):
+    if s in QNAMES:
+        return "q_" + s
     b = s.encode("utf-8")
-    if all((0x20 <= x <= 0x7e) or x >= 0x80 for x in b) and "\ufffe" not in s and "\uffff" not in s:
-        return '"' + s.replace('"', '""') + '"'
-    return "(bs [" + ";".join(str(x) for x in b) + "]%N)"
+    if len(b) <= 3 and all(0x20 <= x <= 0x7e and x != 0x22 for x in b):
+        return '"' + s + '"'
+    return gpacked(b)
 
 
 def gbytes_hex(h):
     b = bytes.fromhex(h)
-    if all(0x20 <= x <= 0x7e and x != 0x22 for x in b):
+    if len(b) <= 3 and all(0x20 <= x <= 0x7e and x != 0x22 for x in b):
         return '"' + b.decode("ascii") + '"'
-    return "(bs [" + ";".join(str(x) for x in b) + "]%N)"
+    return gpacked(b)
 
 
 def gopt(x, f=gs):
@@ -346,7 +358,7 @@ def gtree(t):
     return "(Elem %s %s %s)" % (gs(t[1]), glist(t[2], lambda kv: "(%s,%s)" % (gs(kv[0]), gs(kv[1]))), glist(t[3], gtree))
 
 
-HEADER = ("Require Import Norad.Run.RunBase Norad.Model.Designspace Norad.Run.C18.\nOpen Scope string_scope.\nOpen Scope N_scope.\n"
+HEADER = ("Require Import Norad.Run.RunBase Norad.Model.Designspace Norad.Run.C18.\nFrom Coq Require Import Uint63.\nOpen Scope string_scope.\nOpen Scope N_scope.\n"
           "Set Printing Width 100000. Set Printing Depth 1000000.\n")
 
 BITS = {1: "the written file (as a conforming XML reader sees it) differs from the model's tree",
@@ -361,10 +373,10 @@ def gcase(rec, tree_ok, tree):
     if rec.get("load") == "same":
         load = "LSame"
     elif rec.get("load") == "other":
-        load = "(LOther %d)" % hash_doc(rec["loaded"])
+        load = "(LOther %d%%uint63)" % hash_doc(rec["loaded"])
     else:
         load = "LErr"
-    f = "FBad" if not tree_ok else "(FTree %d)" % hash_node(HINIT, tree)
+    f = "FBad" if not tree_ok else "(FTree %d%%uint63)" % hash_node(HINIT, tree)
     b = lambda x: "true" if x else "false"
     return "(K %s %s %s %s %s %s)" % (gdoc(rec["doc"]), f, load, b(rec["wf"]), b(rec["cls_trim"]),
                                        b(rec["cls_forbidden"] or rec["cls_norm"]))
@@ -674,7 +686,7 @@ def run(ctx, known, built):
                                           "document": rec["doc"], "loaded": rec["loaded"]})
             if rec.get("load") == "panic" or rec.get("save") == "panic":
                 ctx.disagreements.append({"what": "panic in save/load", "case": rec["i"], "msg": rec.get("msg"), "document": rec["doc"]})
-    SH = 75 if not ctx.thorough() else 500
+    SH = 150 if not ctx.thorough() else 500
     saved = [(k, sr) for k, sr in enumerate(allrecs) if sr[1].get("save") == "ok"]
     for b in range(0, len(saved), SH):
         part = saved[b:b + SH]
@@ -694,7 +706,7 @@ def run(ctx, known, built):
     pert = []
     src_trees = [(k, trees[k]) for k, (s, rec) in enumerate(allrecs)
                  if trees[k] is not None and rec["wf"] and not (rec["cls_forbidden"] or rec["cls_norm"] or rec["cls_trim"])]
-    npert = (800 if not ctx.thorough() else 20000) if src_trees else 0
+    npert = (1600 if not ctx.thorough() else 20000) if src_trees else 0
     for i in range(npert):
         k, t = src_trees[i % len(src_trees)] if i < len(src_trees) else rng.pick(src_trees)
         pt, desc = perturb(t, rng)
@@ -711,7 +723,7 @@ def run(ctx, known, built):
             loaded = _load_cases(os.path.join(pd, "loaded.jsonl"))
     dstats = {"perturbed": len(loaded), "perturbed_load_ok": 0, "perturbed_load_err": 0}
     if loaded:
-        DSH = 100 if not ctx.thorough() else 500
+        DSH = 200 if not ctx.thorough() else 500
         for b in range(0, len(loaded), DSH):
             part = list(range(b, min(b + DSH, len(loaded))))
             vf = os.path.join(out, "dec_%d.v" % b)
@@ -723,7 +735,7 @@ def run(ctx, known, built):
                     r = loaded[i]
                     if r["load"] == "ok":
                         dstats["perturbed_load_ok"] += 1
-                        o_ = "(ODoc %d)" % hash_doc(r["loaded"])
+                        o_ = "(ODoc %d%%uint63)" % hash_doc(r["loaded"])
                     else:
                         dstats["perturbed_load_err"] += 1
                         o_ = "OErr"
